@@ -10,6 +10,11 @@ package main
 // `_back_<id>_idpath__*.map` exist.  One tcp service with TLS (sni map, crt-list, listen section).
 //
 //   ops:  iX.C.S.T  ingress X declared / changed     dX  ingress X deleted     tV  tcp service content V (>0)
+//         pX.C.S.T.H  ingress X declared / changed with `ssl-passthrough: "true"` (H = 1: and with
+//                    `ssl-passthrough-http-port`): host hX.local counted by Hosts as a passthrough host, root
+//                    path only, backend X in mode tcp; haproxy.cfg has `listen _front__tls` (the SNI frontend
+//                    reading _front_sslpassthrough__exact.map), `backend _redirect_https` and the https
+//                    frontend behind a unix socket iff Hosts.HasSSLPassthrough()
 //         F  full resync (config.Clear(), everything live is parsed again)     G  the same, tcp service gone
 //         u[:fault]  the recorded batch is applied the way converters.Sync does (one RemoveAll of the touched
 //                    hosts and backends, then every touched live ingress is parsed once), then HAProxyUpdate
@@ -49,7 +54,8 @@ import (
 	"hapverif/gen"
 )
 
-type c05ing struct{ c, s, t int }
+// pass: 0 = plain TLS host; 1 = ssl-passthrough host; 2 = ssl-passthrough host with ssl-passthrough-http-port
+type c05ing struct{ c, s, t, pass int }
 
 type c05fx struct {
 	e          *c12inst
@@ -76,6 +82,22 @@ func c05fxDeclare(e *c12inst, names []int, x int, g c05ing) {
 	b.AcquireEndpoint(fmt.Sprintf("10.0.0.%d", 1+g.c%4), 8080, "")
 	for i := 0; i < g.s; i++ {
 		b.AddEmptyEndpoint()
+	}
+	if g.pass != 0 {
+		// what the converter leaves for `ssl-passthrough: "true"` (ingress.go syncIngress + annotations/host.go
+		// buildHostSSLPassthrough): the root path only is tracked, its backend speaks TLS itself (mode tcp), the
+		// host is counted in Hosts (SetSSLPassthrough), no certificate of its own; with
+		// `ssl-passthrough-http-port` naming the port that is already declared the plain HTTP requests go to
+		// the same service instead of `_redirect_https`
+		h := cfg.Hosts().AcquireHost(c05host(x))
+		h.AddPath(b, "/", hatypes.MatchBegin)
+		h.AddRedirect(fmt.Sprintf("/r%d", g.t), hatypes.MatchBegin, "http://r.local")
+		if g.pass == 2 {
+			h.HTTPPassthroughBackend = b.ID
+		}
+		b.ModeTCP = true
+		h.SetSSLPassthrough(true)
+		return
 	}
 	h := cfg.Hosts().AcquireHost(c05host(x))
 	h.TLS.TLSFilename = fmt.Sprintf("/tls/h%d.pem", x)
@@ -317,7 +339,7 @@ func c05fxTwin(n int, names []int, live map[int]c05ing, tcp int) *c05twin {
 	for _, x := range xs {
 		g := live[x]
 		// empty slots are not compared
-		key += fmt.Sprintf("|%d:%d.%d", x, g.c, g.t)
+		key += fmt.Sprintf("|%d:%d.%d.%d", x, g.c, g.t, g.pass)
 	}
 	c05twinCache.Lock()
 	tw := c05twinCache.m[key]
@@ -431,7 +453,7 @@ func c05fxRun(queue bool, n int, names, shardOf []int, ops []string) c05fxRes {
 		qs = "1"
 	}
 	args := fmt.Sprintf("fx %s %d %s %s", qs, n, strings.Join(shards, "."), strings.Join(ops, ","))
-	nfault, nok, okAfterFault := 0, 0, 0
+	nfault, nok, okAfterFault, npass := 0, 0, 0, 0
 	var fired []string
 	out := func() (res string) {
 		var e *c12inst
@@ -489,9 +511,9 @@ func c05fxRun(queue bool, n int, names, shardOf []int, ops []string) c05fxRes {
 						fmt.Fprintf(os.Stderr, "==== %s\n%s\n", rel, text)
 					}
 				}
-			case op[0] == 'i':
+			case op[0] == 'i' || op[0] == 'p':
 				f := strings.Split(op[1:], ".")
-				if len(f) != 4 {
+				if (op[0] == 'i' && len(f) != 4) || (op[0] == 'p' && len(f) != 5) {
 					panic("bad op " + op)
 				}
 				x, _ := strconv.Atoi(f[0])
@@ -499,6 +521,14 @@ func c05fxRun(queue bool, n int, names, shardOf []int, ops []string) c05fxRes {
 				g.c, _ = strconv.Atoi(f[1])
 				g.s, _ = strconv.Atoi(f[2])
 				g.t, _ = strconv.Atoi(f[3])
+				if op[0] == 'p' {
+					hp, _ := strconv.Atoi(f[4])
+					if hp != 0 && hp != 1 {
+						panic("bad op " + op)
+					}
+					g.pass = 1 + hp
+					npass++
+				}
 				if x < 0 || x >= w.p {
 					panic("bad op " + op)
 				}
@@ -522,7 +552,8 @@ func c05fxRun(queue bool, n int, names, shardOf []int, ops []string) c05fxRes {
 		return strings.Join(obs, ";")
 	}()
 	return c05fxRes{args, out, append(fired, "mode_fx", fmt.Sprintf("fx_faults_%d", min(nfault, 4)), fmt.Sprintf("fx_shards_%d", n),
-		"fx_queue_"+qs, fmt.Sprintf("fx_ok_updates_after_a_fault_%d", min(okAfterFault, 4)))}
+		"fx_queue_"+qs, fmt.Sprintf("fx_ok_updates_after_a_fault_%d", min(okAfterFault, 4)),
+		fmt.Sprintf("fx_passthrough_declarations_%d", min(npass, 4)))}
 }
 
 type c05fxJobs struct {
@@ -626,6 +657,14 @@ func c05fxCorpus(j *c05fxJobs) {
 		j.add(false, n, pat, sp("i0.4.0.1,u,i0.8.0.1,u,i0.12.0.1,u,i0.4.0.1,u:bm,u"))
 		// reload queue mode
 		j.add(true, n, pat, sp("i0.4.0.1,i1.4.1.1,t1,u,i0.12.0.1,u:mc,t2,u:cl,i1.8.0.3,u"))
+		// ssl-passthrough hosts: the only one re-declared unchanged by a partial sync (Shrink drops the re-parsed
+		// twin), then haproxy.cfg is rewritten for another reason; two of them, each re-declared once; the
+		// last one goes away / turns into a plain host and comes back; full resync in between; a failed write
+		j.add(false, n, pat, sp("p0.4.0.1.0,u,p0.4.0.1.0,u,i1.4.0.1,u,u"))
+		j.add(false, n, pat, sp("p0.4.0.1.1,i1.4.0.1,u,p0.4.0.1.1,i1.4.0.1,u,i1.8.0.1,u"))
+		j.add(false, n, pat, sp("p0.4.0.1.0,p1.8.1.2.1,u,p0.4.0.1.0,u,p1.8.1.2.1,u,i2.4.0.1,u,d0,u,d1,u,u"))
+		j.add(false, n, pat, sp("p0.4.0.1.0,i1.4.0.1,u,i0.4.0.1,u,p0.4.0.1.0,u,p0.4.0.1.0,u,F,u,p0.4.0.1.0,u,i1.5.0.1,u"))
+		j.add(false, n, pat, sp("p0.4.0.1.0,t1,u,p0.4.0.1.0,u:mc,i1.4.0.1,u:mc,u,p0.4.0.2.1,u:fm,u,d0,u:fh,u"))
 	}
 }
 
@@ -642,6 +681,19 @@ func c05fxExhaustive(j *c05fxJobs, all bool) {
 		{"i0.4.0.1", "i1.9.1.1"}, // re-declared unchanged, the other one with fewer slots
 		{"F"},                   // full resync, nothing changed
 		{"i1.9.2.1"},            // ONLY the other ingress, re-declared unchanged: Shrink drops its pair (seed C05f)
+	}
+	// the same grid with an ssl-passthrough host next to the two ingresses (declared at the start), the changes
+	// being about it: re-declared unchanged, http port added, content changed, turned into a plain host, deleted
+	pchanges := [][]string{
+		{"p2.4.0.1.0"},              // re-declared unchanged: Shrink drops the re-parsed twin
+		{"p2.4.0.1.0", "i0.4.0.1"}, // the same next to a plain host re-declared unchanged
+		{"p2.4.0.1.1"},              // ssl-passthrough-http-port added
+		{"p2.4.0.2.0"},              // host content
+		{"p2.5.1.1.0"},              // backend address and slots only
+		{"i2.4.0.1"},                // not a passthrough host anymore
+		{"d2"},                      // gone
+		{"i0.8.0.1"},                // another ingress changed (haproxy.cfg rewritten)
+		{"F"},
 	}
 	ns := []int{3, 0}
 	if all {
@@ -666,6 +718,35 @@ func c05fxExhaustive(j *c05fxJobs, all bool) {
 					ops = append(ops, "u:"+ff)
 					ops = append(ops, c2...)
 					ops = append(ops, "u", "u")
+					j.add(false, n, c05patterns[n][:3], ops)
+				}
+			}
+			for i1, c1 := range pchanges {
+				for i2, c2 := range pchanges {
+					if !all && (i1+i2)%2 == 1 && i1 > 1 && f != "mc" && f != "fm" {
+						continue
+					}
+					ops := []string{"i0.4.0.1", "i1.9.2.1", "p2.4.0.1.0", "t1", "u"}
+					ops = append(ops, c1...)
+					ops = append(ops, "u:"+ff)
+					ops = append(ops, c2...)
+					ops = append(ops, "u", "i1.13.2.1", "u")
+					j.add(false, n, c05patterns[n][:3], ops)
+				}
+			}
+		}
+	}
+	// no fault at all: every pair of changes about the passthrough host, each followed by a rewrite of haproxy.cfg
+	for _, n := range ns {
+		for _, c1 := range pchanges {
+			for _, c2 := range pchanges {
+				for _, start := range []string{"p2.4.0.1.0", "p2.4.0.1.0,p1.4.0.1.1"} {
+					ops := strings.Split(start, ",")
+					ops = append(ops, "u")
+					ops = append(ops, c1...)
+					ops = append(ops, "u")
+					ops = append(ops, c2...)
+					ops = append(ops, "u", "i0.12.0.2", "u")
 					j.add(false, n, c05patterns[n][:3], ops)
 				}
 			}
@@ -700,13 +781,18 @@ func c05fxRandom(j *c05fxJobs, r *gen.Rng, count int) {
 				switch {
 				case !ok:
 					g = c05ing{c: 4*r.Range(1, 4) + r.Intn(2), s: r.Intn(3), t: r.Range(1, 3)}
+					if r.Chance(1, 3) {
+						g.pass = r.Range(1, 2)
+					}
 				case r.Chance(1, 7):
 					delete(live, x)
 					ops = append(ops, fmt.Sprintf("d%d", x))
 					continue
 				default:
-					switch r.Intn(7) {
-					case 0: // re-declared unchanged
+					switch r.Intn(9) {
+					case 0, 7: // re-declared unchanged
+					case 8: // ssl-passthrough comes / goes / gets its http port
+						g.pass = (g.pass + r.Range(1, 2)) % 3
 					case 1:
 						g.c = g.c/4*4 + (g.c%4+1)%2
 					case 2, 3:
@@ -722,6 +808,10 @@ func c05fxRandom(j *c05fxJobs, r *gen.Rng, count int) {
 					}
 				}
 				live[x] = g
+				if g.pass != 0 {
+					ops = append(ops, fmt.Sprintf("p%d.%d.%d.%d.%d", x, g.c, g.s, g.t, g.pass-1))
+					continue
+				}
 				ops = append(ops, fmt.Sprintf("i%d.%d.%d.%d", x, g.c, g.s, g.t))
 			}
 			if r.Chance(1, 4) {
@@ -759,10 +849,14 @@ func c05fxRandom(j *c05fxJobs, r *gen.Rng, count int) {
 	}
 }
 
-func runC05fx(c *ctx) {
+func runC05fxCorpus(c *ctx) {
 	j := &c05fxJobs{c: c}
 	c05fxCorpus(j)
 	j.flush()
+}
+
+func runC05fx(c *ctx) {
+	j := &c05fxJobs{c: c}
 	c05fxExhaustive(j, c.thorough())
 	j.flush()
 	count := 1500
